@@ -529,7 +529,7 @@ class Interp:
         return m(node, fr)
 
     def eval_Constant(self, node, fr):
-        return node.value
+        return node.value  # includes Ellipsis
 
     def eval_Name(self, node, fr):
         v = self.lookup(node.id, fr, node)
